@@ -23,6 +23,10 @@ UNITS = {
             r'^(lemma_rc_.*|lemma_rcnum.*|lemma_revcomp.*)$': ['C02'],
         },
     },
+    'n2k': {
+        'template': 'n2k.vrs', 'backend': 'verus',
+        'serves': ['C02', 'C03'],
+    },
 }
 
 HOOK_COMMITS = []
@@ -36,6 +40,16 @@ PROPS = {
         'level_note': 'trusted: Verus/Z3, vstd, the extractor (R1 visibility, R3 Iterator impl -> inherent impl); raw bytes 0x00-0x03 follow the table (unspecified by C01); '
                       'the Python wrapper __next__ is a one-line delegation (pyo3 glue unverified).',
         'not_reached': ['pyo3 glue of pybindings/src/kmer.rs (__next__ delegates to the verified next); transmute lifetime extension'],
+    },
+    'C02': {
+        'units': ['kmer_gen', 'n2k'], 'deps': [], 'replay': 'c02',
+        'level_text': 'Verus proves for the verbatim rev_comp and numeric_to_kmer, all k <= 31 and all codes: rev_comp(x,k) equals the arithmetic reverse '
+                      'complement rc_num (loop invariant over the accumulator form), rc_num is an involution below 4^k and equals the code of the '
+                      'reverse-complemented text; decoding gives k letters over ACGT that re-encode to x mod 4^k; every pair of the iterator stream has '
+                      'second == rc_num(first). Unbounded in k-range and sequence length.',
+        'level_note': 'trusted: Verus/Z3, vstd, extractor rules R1 R3 R6 R8; R8 stub verif_rev_string (std chars().rev().collect() reverses a string) is assumed; '
+                      'stream-reversal symmetry for whole sequences is a spec-level corollary (see evidence not_reached if not yet proved).',
+        'not_reached': ['stream symmetry of a whole reverse-complemented sequence (spec-level lemma over kmers_spec), if not listed among the bundles'],
     },
 }
 
